@@ -402,6 +402,14 @@ func TestVerifC05(t *testing.T) {
 		size := 4 + r.Intn(25)
 		c05Bubble(t, func() { c05SyncRandom(out, r, size) })
 	}
+	nd := 500
+	if thorough {
+		nd = 12000
+	}
+	for i := 0; i < nd; i++ {
+		size := 6 + r.Intn(30)
+		c05Bubble(t, func() { c05DialPeerRandom(out, r, size) })
+	}
 	nr := 3000
 	if thorough {
 		nr = 100000
